@@ -7,7 +7,10 @@ pub ghost struct GNode {
     pub named: bool,        // is_named()
     pub start: nat,         // range().start
     pub end: nat,           // range().end
+    pub comment: bool,      // kind name contains "comment"
 }
+/// the source text of a node
+pub uninterp spec fn g_text(n: GNode) -> Seq<char>;
 
 pub ghost struct GEnv {
     pub single: Map<Seq<char>, GNode>,
@@ -55,6 +58,8 @@ impl<'r, D: Doc> Node<'r, D> {
     pub fn is_named(&self) -> (b: bool) ensures b == self@.named { unimplemented!() }
     #[verifier::external_body]
     pub fn node_id(&self) -> (k: usize) ensures k as int == self@.id { unimplemented!() }
+    #[verifier::external_body]
+    pub fn range(&self) -> (r: std::ops::Range<usize>) ensures r.start == self@.start, r.end == self@.end, r.start <= r.end { unimplemented!() }
 }
 
 pub open spec fn cow_env<'a, 't, D: Doc>(c: Cow<'a, MetaVarEnv<'t, D>>) -> GEnv {
